@@ -191,7 +191,7 @@ pub fn ref_pst_check<E: Pairing, S: CryptographicSponge>(
 // IPA
 // ---------------------------------------------------------------------------------------------
 
-fn ro_challenge<F: PrimeField>(bytes: &[u8]) -> F {
+pub fn ro_challenge<F: PrimeField>(bytes: &[u8]) -> F {
     let mut i = 0u64;
     loop {
         let mut inp = bytes.to_vec();
@@ -204,7 +204,7 @@ fn ro_challenge<F: PrimeField>(bytes: &[u8]) -> F {
     }
 }
 
-fn ser_unc<T: CanonicalSerialize>(x: &T, out: &mut Vec<u8>) {
+pub fn ser_unc<T: CanonicalSerialize>(x: &T, out: &mut Vec<u8>) {
     x.serialize_uncompressed(out).unwrap();
 }
 
